@@ -1476,9 +1476,15 @@ func parsePauseCommaList(p *ParserZH, consumer consumerFunc) {
 }
 
 func parseItemListBlock(p *ParserZH, blockIndent int, consumer func()) {
-	for (p.peek().Type != TypeEOF) && p.getPeekIndent() == blockIndent {
+	first := true
+	// an item belongs to the block when its line has the block's indentation - or when it
+	// does not begin a line at all: what follows a ； on the last line of an item that spans
+	// several lines (a bracket or a text continued on further lines, whatever their
+	// indentation) stands in the same block as that item
+	for (p.peek().Type != TypeEOF) && ((!first && p.peekOnCurrentLine()) || p.getPeekIndent() == blockIndent) {
 		verifTick()
 		consumer()
+		first = false
 	}
 }
 
